@@ -418,6 +418,9 @@ impl MWorld {
             self.ops[op].calls.push(ci);
         }
         self.objs[id as usize].detach_steps.push(step);
+        if self.sc.profile == "C08" && !self.draining {
+            crate::moracle::c08_on_call(self, ci);
+        }
     }
 
     pub fn new_obj(&mut self) -> u32 {
@@ -475,6 +478,7 @@ impl MWorld {
         } else {
             self.cur_op[actor] = None;
             self.ops_done += 1;
+            let _ = self.orc.last_op_of_actor.insert(actor, opi);
         }
     }
 
@@ -493,8 +497,10 @@ impl MWorld {
         } else if o.dead {
             bad = Some(format!("object #{id} handed out although a recycling / post_create step had failed, timed out or been cancelled for it"));
         }
+        let prev_reported = o.last_reported;
         o.holder = Some(actor);
         o.handouts += 1;
+        let h = o.handouts;
         o.last_reported = Some(m);
         if o.first_created.is_none() {
             o.first_created = Some(m.created);
@@ -502,6 +508,9 @@ impl MWorld {
         if let Some(d) = bad {
             let p = if profile == "C04" { "C04" } else { "C01" };
             self.violate(p, "exclusive_handout", d);
+        }
+        if profile == "C13" {
+            crate::moracle::c13_on_handout(self, id, m, prev_reported, h);
         }
     }
 
